@@ -671,6 +671,16 @@ def fam_teardown(g, prefix, n_random):
     for n in ("2", "3", "0"):
         g.tag = 0
         add([["counter", "k"], ["sub", ["retry", n, ["flaky", "0", "k", [n_(1), e_(5)], [n_(2), e_(5)], [n_(3), C_]]], NOREACT]])
+    # two hot inputs that BOTH keep emitting after the operator took its decision (switched away, winner chosen, gate
+    # opened / closed), then every way of ending: neither subject may hold an observer of this subscription afterwards
+    for c in ("switch_on_next", "amb", "take_until", "skip_until", "sample", "merge", "zip", "concat", "combine_latest", "sequence_equal"):
+        for inner in (lambda q: q, lambda q: ["map", "inc", q]):
+            for first in ("a", "b"):
+                other = "b" if first == "a" else "a"
+                pre = [["subject", "a", "plain"], ["subject", "b", "plain"], ["sub", g.combine_named(c, inner(["ref", "a"]), [inner(["ref", "b"])], hot=("a", "b")), NOREACT],
+                       ["hnext", first, "1"], ["hnext", other, "2"], ["hnext", first, "3"], ["hnext", other, "4"]]
+                for tail in ([["unsub", "0"]], [["hcomplete", "a"], ["hcomplete", "b"]], [["hcomplete", "b"], ["hcomplete", "a"]], [["herror", "a", "6"]], [["herror", "b", "6"]]):
+                    add(pre + tail + [["unsub", "0"], ["hnext", "a", "5"], ["hnext", "b", "6"]])
     return out
 
 def fam_resubscribe(g, prefix, n_random):
